@@ -31,6 +31,11 @@ def zmax(a, b):
 class DataModels:
     # ------------------------------------------------------------ attributes
     def getattr(self, I, b, attr, node=None):
+        from .vals import SOpt
+        if isinstance(b, SOpt):
+            if not I.pure and I.ctx.branch(b.isnone):
+                raise PyExc('AttributeError', line_of(node), 'None.%s' % attr)
+            return self.getattr(I, b.val, attr, node)
         if b is None:
             raise PyExc('AttributeError', line_of(node), 'None.%s' % attr)
         if isinstance(b, SRec):
@@ -44,6 +49,9 @@ class DataModels:
             raise PyExc('AttributeError', line_of(node), attr)
         if isinstance(b, SObj):
             if attr in b.attrs:
+                if attr in getattr(b, 'rep', ()) and not I.pure and not I.owns(attr):
+                    raise Unsupported('representation field %s.%s accessed directly in %s, whose contract does not own it '
+                                      '(declare it in modifies)' % (b.cls, attr, I.qualname))
                 return b.attrs[attr]
             if getattr(b, 'is_structs', False):
                 return StructRef(attr, b)
@@ -586,6 +594,9 @@ class DataModels:
             return c.const(name + '!h', StrS)
         if cur is None:
             return None
+        from .vals import SOpt
+        if isinstance(cur, SOpt):
+            return SOpt(c.const(name + '.isnone!h', BoolS), self.havoc_value(I, cur.val, name, None))
         if isinstance(cur, Code):
             raw = c.const(name + '.raw!h', IntS)
             c.assume(raw >= 0)
@@ -644,6 +655,9 @@ class DataModels:
             return leaf(StrS)
         if isinstance(proto, Code):
             return Code(leaf(BoolS, '.isname'), leaf(StrS, '.name'), leaf(IntS, '.raw'))
+        from .vals import SOpt
+        if isinstance(proto, SOpt):
+            return SOpt(self.indexed_like(I, proto.isnone, name + '.isnone', idx), self.indexed_like(I, proto.val, name, idx))
         if isinstance(proto, SRec):
             if proto.tag is not None:
                 raise Unsupported('havoc of a list of tagged records: declare a shape in the loop contract')
